@@ -132,3 +132,52 @@ func (s *decScope) ruleDR(prefix string) {
 		}
 	}
 }
+
+// DR.WIDTH — text parsed into a float32 must be parsed AS a float32:
+// strconv.ParseFloat(s, 64) followed by float32(x) rounds twice (to the
+// nearest double, then to the nearest single), which differs from the
+// correctly rounded single for decimal strings just off a float32 tie, so a
+// file written from float32 values with enough digits does not read back
+// identically.
+func (s *decScope) ruleDRWidth(rule string) {
+	c := s.c
+	for _, fn := range s.fns {
+		n := 0
+		for _, b := range fn.Blocks {
+			for _, ins := range b.Instrs {
+				cv, ok := ins.(*ssa.Convert)
+				if !ok {
+					continue
+				}
+				bt, ok := cv.Type().Underlying().(*types.Basic)
+				if !ok || bt.Kind() != types.Float32 {
+					continue
+				}
+				ex, ok := cv.X.(*ssa.Extract)
+				if !ok || ex.Index != 0 {
+					continue
+				}
+				call, ok := ex.Tuple.(*ssa.Call)
+				if !ok {
+					continue
+				}
+				f := call.Call.StaticCallee()
+				if f == nil || f.Pkg == nil || f.Pkg.Pkg.Path() != "strconv" || f.Name() != "ParseFloat" {
+					continue
+				}
+				n++
+				c.analysed(qname(fn))
+				key := qname(fn) + " float32 from text #" + itoa(n)
+				bits, isC := constInt(call.Call.Args[1])
+				switch {
+				case isC && bits == 32:
+					c.ok(rule, key, cv.Pos(), "parsed with bit size 32: correctly rounded single")
+				case isC:
+					c.bad(rule, key, cv.Pos(), "the text is parsed with bit size 64 and then converted to float32: double rounding differs from the correctly rounded float32 for decimals just off a tie")
+				default:
+					c.ok(rule, key, cv.Pos(), "bit size is not a constant (no claim)")
+				}
+			}
+		}
+	}
+}
